@@ -35,6 +35,24 @@ def run(ctx, factor):
             rep.dist["result-pairs"] += 1
             if a != b:
                 rep.violate("presentation-changes-the-result", dict(case, rule=doc), "equal results", {"result_1": a, "result_2": b})
+        if g.chance(0.3):
+            # the same pair under a rule that installs the address-range observer as well (a second observer in the
+            # consumer's chain): presentation still must not matter, for the stream and for the results
+            cfg = {"valid_addr_range": g.pick([{"min": "0xfffffffffff0", "max": "0xffffffffffff"}, {"min": "0", "max": "ffffffff"}])}
+            t1 = impl.stream_of(ctx.scratch, r1["text"], config=cfg)
+            t2 = impl.stream_of(ctx.scratch, r2["text"], config=cfg)
+            rep.dist["pairs-under-valid_addr_range"] += 1
+            if t1 != t2 and t1[0] == "ok" and t2[0] == "ok":
+                rep.violate("presentation-changes-the-stream(with valid_addr_range)", dict(case, config=cfg), "equal streams",
+                            {"stream_1": t1, "stream_2": t2})
+            elif t1 == t2 and t1[0] == "ok":
+                doc = gen_rules.rule(g, {"ops", "logic"}, depth=1)
+                doc["config"] = dict(doc.get("config") or {}, **cfg)
+                a = impl.run_op(ctx.scratch, doc, r1["text"], mode="all", ret="list")
+                b = impl.run_op(ctx.scratch, doc, r2["text"], mode="all", ret="list")
+                if a != b:
+                    rep.violate("presentation-changes-the-result(with valid_addr_range)", dict(case, rule=doc), "equal results",
+                                {"result_1": a, "result_2": b})
         if g.chance(0.25):
             # line ends: the same listing file saved with \r\n (objdump on a text-mode stdout, a Windows editor)
             crlf = r1["text"].replace("\n", "\r\n")
